@@ -5,7 +5,7 @@ A change is never applied to /repo: a scratch worktree outside /repo and /verif 
 import glob, json, os, shutil, subprocess, sys
 VERIF = os.path.dirname(os.path.dirname(os.path.abspath(__file__)))
 SEEDED = os.path.join(VERIF, "seeded")
-WT = "/tmp/wt/seeded"
+WT = os.environ.get("SEEDED_WT", "/tmp/wt/seeded")      # (one scratch worktree per concurrent run)
 PYTEST = "/venv/bin/python -m pytest -ra -q -p no:cacheprovider --timeout=900 --continue-on-collection-errors"
 
 
@@ -92,7 +92,11 @@ def do_run(ids):
                 continue
             sh(f"git -C {WT} checkout -- .")
             rc, out = sh(f"git -C {WT} apply {os.path.join(d, 'patch.diff')}")
-            assert rc == 0, out
+            if rc != 0:
+                print(name, "skipped (patch no longer applies to HEAD):", out.strip().splitlines()[-1][:200])
+                meta["no_longer_applies"] = out.strip()[-300:]
+                json.dump(meta, open(os.path.join(d, "meta.json"), "w"), indent=1)
+                continue
             results = meta.get("detection", {})
             for chk in meta.get("checks", [meta["breaks"]]):
                 rc, out = sh(f"./check {chk} --tier quick 2>&1 | tail -2", cwd=VERIF, env={"AY_REPO": WT}, timeout=3000)
